@@ -23,7 +23,13 @@ def check(chk, thorough=False):
     chk.run('C17.b', 'R-SCHEMA', 'every bound message type has a dispatch arm, unknown types are rejected, base handlers reject outside a session and overrides call them first', lambda ob: c17b(tree, ob), floor=12)
     chk.run('C17.c', 'R-SCHEMA', 'every keyword used to build a message and every field read from a dispatched message is a field of that message class', lambda ob: c17c(tree, ob), floor=15)
     chk.run('C17.d', 'R-ORDER', 'no delivery from mismatched transfers (= C01.d) and each START begins with fresh receive state', lambda ob: (c01d(tree, ob), c17d(tree, ob)), floor=9)
+    chk.run('C17.e2', 'R-PAIR', 'transfers that are finished or abandoned leave the TX map (with the right key), so later peer messages about them are rejected as unknown (= C18.c)', lambda ob: _c18c(tree, ob), floor=8)
     chk.run('C17.e', 'R-FLOW', 'peer-driven handlers change TX state only for the transfer they looked up by the peer id', lambda ob: c17e(tree, ob), floor=3)
+
+
+def _c18c(tree, ob):
+    from .c18 import c18c
+    return c18c(tree, ob)
 
 
 # ---------------------------------------------------------------- C17.a
@@ -292,6 +298,8 @@ def c17b(tree, ob):
                         ob.violate(SESS, fv.qual, src(call)[:60], 'handler is called outside the reject/terminate funnel', call)
     if not ok:
         ob.violate(SESS, fv.qual, 'try/except RejectError, TerminateError', 'reject/terminate funnel missing', fv.func)
+    from .c15 import funnel_order
+    funnel_order(tree, ob)
     # base handlers reject outside a session; overrides call the base first
     for hname in ('recv_sess_term', 'recv_xfer_data', 'recv_xfer_ack', 'recv_xfer_refuse'):
         fb = FuncView(tree, SESS, 'Messenger.' + hname)
